@@ -337,6 +337,18 @@ class Exec:
         return Ptr(hi, v & 0xffffffff) if 0 < hi < FNBASE else Ptr(0, v)
 
     def read_cstr(s, st, p, maxlen=4096):
+        # string literals (constant globals, same object ids in every state of this Exec) are decoded once
+        ck = None
+        if isinstance(p, Ptr) and isinstance(p.obj, int) and isinstance(p.off, int):
+            o = st.mem.get(p.obj)
+            if o is not None and o.kind == 'const' and o.alive:
+                ck = (p.obj, p.off); c = s.__dict__.setdefault('_cstr_cache', {}).get(ck)
+                if c is not None: return c
+        r = s._read_cstr(st, p, maxlen)
+        if ck is not None: s._cstr_cache[ck] = r
+        return r
+
+    def _read_cstr(s, st, p, maxlen=4096):
         out = []
         for k in range(maxlen):
             c = s.load(st, IntT(8), s.padd(p, k))
